@@ -9,7 +9,7 @@
 From Coq Require Import ZArith List Bool Lia.
 From IBL.lib Require Import PyInt.
 From IBL.C17 Require Import Model.
-From IBL.C12 Require Import Model Proofs Cast CastProofs.
+From IBL.C12 Require Import Model Proofs ProofsR2 Cast CastProofs.
 Import ListNotations.
 Open Scope Z_scope.
 
@@ -137,6 +137,127 @@ Print Assumptions C12_short_recording_refuted.
 Theorem C12_inadmissible_window_rejected : forall ns W, admissible W = false -> lf_windows ns W = None.
 Proof. exact inadmissible_rejected. Qed.
 Print Assumptions C12_inadmissible_window_rejected.
+
+(* ------------------------------------------------------------------ *)
+(* Round 2                                                             *)
+(* ------------------------------------------------------------------ *)
+
+(* init_params(nsamples = n) and _process_NP21(offset = off) on a file of nsf >= off + n
+   samples: the stream has ceil(n/12) rows and row m is taken at AP sample off + 12 m
+   (the NP2.1 branch with its offset; _process_NP24 and process() are the case off = 0). *)
+Theorem C12_offset_positions : forall nsf off n W, 144 <= n -> admissible W = true ->
+  0 <= off -> off + n <= nsf ->
+  lf_positions_off nsf off n W = Some (map (fun m => off + 12 * m) (zrange (Z.to_nat (cdiv n 12)))) /\
+  lf_nsamples_off nsf off n W = Some (cdiv n 12).
+Proof.
+  intros nsf off n W Hn Hadm Ho Hf. split.
+  - exact (lf_positions_off_closed nsf off n W Hn Hadm Ho Hf).
+  - exact (lf_nsamples_off_closed nsf off n W Hn Hadm Ho Hf).
+Qed.
+Print Assumptions C12_offset_positions.
+
+(* The general loop called the default way (whole file, offset 0) is the loop of the theorems above. *)
+Theorem C12_default_call_is_whole_file : forall ns W, 144 <= ns -> admissible W = true ->
+  lf_windows_off ns 0 ns W = lf_windows ns W.
+Proof. exact lf_windows_off_default. Qed.
+Print Assumptions C12_default_call_is_whole_file.
+
+(* fileTimeSecs is copied unchanged into the LF metadata while imSampRate becomes 2500.  For a
+   nominal 30 kHz recording the sample count that metadata announces, round(ns/12) (half to even),
+   equals the rows written, ceil(ns/12), exactly when ns mod 12 is 0, 7..11, or 6 with floor(ns/12)
+   odd; in every other case the Reader only gets the shape right through its size-mismatch repair
+   (warning + in-memory replacement of fileTimeSecs) -- which C12_lf_meta_opens_* show always works. *)
+Theorem C12_lf_meta_duration_stale : forall m ns, 0 <= ns -> 1 <= rd_nc m ->
+  (meta_ns_nominal ns =? cdiv ns 12) = duration_consistent ns /\
+  rd_fudged m (2 * rd_nc m * cdiv ns 12) (meta_ns_nominal ns) = negb (duration_consistent ns).
+Proof.
+  intros m ns Hns Hnc. split; [exact (meta_ns_nominal_spec ns Hns)|exact (fudged_iff_stale m ns Hns Hnc)].
+Qed.
+Print Assumptions C12_lf_meta_duration_stale.
+
+(* The stronger reading "the LF metadata by itself announces the shape of the content" fails:
+   145 samples at 30 kHz give 13 rows, the metadata announces round(145/12) = 12. *)
+Theorem C12_lf_meta_self_consistent_refuted : exists ns,
+  144 <= ns /\ meta_ns_nominal ns <> cdiv ns 12.
+Proof. exists 145. vm_compute. split; discriminate. Qed.
+Print Assumptions C12_lf_meta_self_consistent_refuted.
+
+(* VALUES.  The low-pass is external (scipy.signal.sosfiltfilt on a chunk [a,b), which pads at
+   the chunk ends): an arbitrary operator `filt`; the cosine taper an arbitrary `tap`; `close u v`
+   stands for |u - v| <= eps.  Hypotheses: the taper leaves the chunk untouched except its first
+   and last 144 samples; LOCALITY: the filtered value at p changes by at most eps when the chunk
+   (its data, its ends, its padding) is changed arbitrarily outside [p-144, p+144].  Then for every
+   recording, every admissible window size and every row m with 288 <= 12 m < ns - 288 the stream
+   is within eps of the low-pass of the whole trace at 12 m.  eps is measured by the harness. *)
+Theorem C12_lf_values_within_eps :
+  forall (V : Type) (filt : Z -> Z -> (Z -> V) -> Z -> V) (tap : Z -> Z -> (Z -> V) -> Z -> V)
+         (close : V -> V -> Prop),
+  (forall a b x p, a + taper <= p < b - taper -> tap a b x p = x p) ->
+  (forall a b a' b' (x y : Z -> V) p,
+     a <= p - taper -> p + taper < b -> a' <= p - taper -> p + taper < b' ->
+     (forall q, p - taper <= q <= p + taper -> x q = y q) -> close (filt a b x p) (filt a' b' y p)) ->
+  forall ns W (x : Z -> V) vs (m : nat) d, 144 <= ns -> admissible W = true ->
+  lf_values V filt tap x ns W = Some vs ->
+  length vs = Z.to_nat (cdiv ns 12) /\
+  ((m < length vs)%nat -> 2 * taper <= 12 * Z.of_nat m < ns - 2 * taper ->
+   close (nth m vs d) (whole_trace_lf V filt x ns (Z.of_nat m))).
+Proof.
+  intros V filt tap close Ht Hf ns W x vs m d Hns Hadm.
+  exact (lf_values_nth V filt tap close Ht Hf ns W Hns Hadm x vs m d).
+Qed.
+Print Assumptions C12_lf_values_within_eps.
+
+(* ... and two window sizes give streams within 2 eps of each other there (close2 = |u - v| <= 2 eps,
+   related to close by the triangle inequality). *)
+Theorem C12_lf_values_window_independent :
+  forall (V : Type) (filt : Z -> Z -> (Z -> V) -> Z -> V) (tap : Z -> Z -> (Z -> V) -> Z -> V)
+         (close close2 : V -> V -> Prop),
+  (forall u v w, close u w -> close v w -> close2 u v) ->
+  (forall a b x p, a + taper <= p < b - taper -> tap a b x p = x p) ->
+  (forall a b a' b' (x y : Z -> V) p,
+     a <= p - taper -> p + taper < b -> a' <= p - taper -> p + taper < b' ->
+     (forall q, p - taper <= q <= p + taper -> x q = y q) -> close (filt a b x p) (filt a' b' y p)) ->
+  forall ns W1 W2 (x : Z -> V) vs1 vs2 (m : nat) d, 144 <= ns ->
+  admissible W1 = true -> admissible W2 = true ->
+  lf_values V filt tap x ns W1 = Some vs1 -> lf_values V filt tap x ns W2 = Some vs2 ->
+  length vs1 = length vs2 /\
+  ((m < length vs1)%nat -> 2 * taper <= 12 * Z.of_nat m < ns - 2 * taper ->
+   close2 (nth m vs1 d) (nth m vs2 d)).
+Proof.
+  intros V filt tap close close2 Htri Ht Hf ns W1 W2 x vs1 vs2 m d Hns H1 H2 E1 E2.
+  destruct (lf_values_nth V filt tap close Ht Hf ns W1 Hns H1 x vs1 m d E1) as [L1 C1].
+  destruct (lf_values_nth V filt tap close Ht Hf ns W2 Hns H2 x vs2 m d E2) as [L2 C2].
+  split; [congruence|]. intros Hm Ha. apply (Htri _ _ (whole_trace_lf V filt x ns (Z.of_nat m))).
+  - apply C1; assumption.
+  - apply C2; [congruence|assumption].
+Qed.
+Print Assumptions C12_lf_values_window_independent.
+
+(* The hypotheses of the two value theorems are satisfiable (a 3-tap moving sum as the filter,
+   a taper that zeroes the ends, eps = 0), and the model then computes values. *)
+Example C12_values_hypotheses_satisfiable :
+  let filt := fun (a b : Z) (x : Z -> Z) p => x (p - 1) + x p + x (p + 1) in
+  let tap := fun (a b : Z) (x : Z -> Z) p => if (a + taper <=? p) && (p <? b - taper) then x p else 0 in
+  (forall a b x p, a + taper <= p < b - taper -> tap a b x p = x p) /\
+  (forall a b a' b' (x y : Z -> Z) p,
+     a <= p - taper -> p + taper < b -> a' <= p - taper -> p + taper < b' ->
+     (forall q, p - taper <= q <= p + taper -> x q = y q) -> filt a b x p = filt a' b' y p) /\
+  option_map (fun l => nth 30 l 0) (lf_values Z filt tap (fun q => q) 1300 600) = Some (3 * 360).
+Proof.
+  cbv zeta. split; [|split].
+  - intros a b x p Hp.
+    replace (a + taper <=? p) with true by (symmetry; apply Z.leb_le; lia).
+    replace (p <? b - taper) with true by (symmetry; apply Z.ltb_lt; lia). reflexivity.
+  - intros a b a' b' x y p _ _ _ _ H. change taper with 144 in H.
+    rewrite (H (p - 1)), (H p), (H (p + 1)) by lia. reflexivity.
+  - vm_compute. reflexivity.
+Qed.
+
+Example C12_example_offset :
+  lf_positions_off 2000 500 150 588 = Some [500; 512; 524; 536; 548; 560; 572; 584; 596; 608; 620; 632; 644] /\
+  meta_ns_nominal 145 = 12 /\ cdiv 145 12 = 13 /\ duration_consistent 145 = false /\
+  meta_ns_nominal 150 = 12 /\ meta_ns_nominal 162 = 14.
+Proof. vm_compute. repeat split. Qed.
 
 (* Non-vacuity: concrete inputs meeting the hypotheses, with the model's values. *)
 Example C12_example_windows :
